@@ -557,12 +557,12 @@ class PrivateKey:
         # we need use deterministic k
         k = self.deterministic_k(z)
         # r is the x coordinate of the resulting point k*G
-        r = (k * G).x.num
+        r = (k * G).x.num % N
         # remember 1/k = pow(k, N-2, N)
         k_inv = pow(k, N - 2, N)
         # s = (z+r*secret) / k
         s = (z + r * self.secret) * k_inv % N
-        if s > N / 2:
+        if s > N // 2:
             s = N - s
         # return an instance of Signature:
         # Signature(r, s)
